@@ -204,7 +204,7 @@ def make_judge(chk: Check):
                     viols.append(Viol("wrong-type-source", where, {"function": f["name"], "param": p["name"], "hint": p["hint"], "docstring_type": p["doc"], "stub": got.type.render() if got.type else None, "style": style}))
                 if p["hint"] and p["doc"] and p["hint"] != p["doc"]:
                     exp_param_warn[fid] = exp_param_warn.get(fid, 0) + 1
-                chk.case_ok(f"{style}:{where}")
+                chk.case_ok(f"{style}:{where}", ident=(case.cid, f["name"], p["name"]))
             r = f["result"]
             exp = expected_type(r, pref)
             combo = f"hint={'y' if r['hint'] else 'n'},doc={'y' if r['doc'] else 'n'},{'eq' if r['hint'] == r['doc'] else 'diff'}"
